@@ -4272,7 +4272,16 @@ namespace gch
 #endif
         }
 
-        uninitialized_move (begin_ptr (), end_ptr (), new_data_ptr);
+        GCH_TRY
+        {
+          uninitialized_move<strong_exception_policy> (begin_ptr (), end_ptr (), new_data_ptr);
+        }
+        GCH_CATCH (...)
+        {
+          if (! (new_data_ptr == storage_ptr ()))
+            deallocate (new_data_ptr, new_capacity);
+          GCH_THROW;
+        }
 
         destroy_range (begin_ptr (), end_ptr ());
         deallocate (data_ptr (), get_capacity ());
